@@ -36,25 +36,99 @@ def _p(pid, **kw):
     PROPS[pid] = kw
 
 
+K = COMMON_KANI_ASSUMPTIONS
+V = COMMON_VERUS_ASSUMPTIONS
+PROOF_TEXT = ("Every counted obligation is a contract clause (Kani ensures / harness assertion over the full symbolic input domain, "
+              "or a Verus postcondition) on the real function text, discharged on every run for all inputs; "
+              "bounded stand-ins are listed separately in coverage.bounded and never counted. ")
+
+_p("C01",
+   level_text=PROOF_TEXT + "Decides the per-call clauses of C01: what a record echoes, what the attribute update/merge write, and that the id source of the simple trackers is strictly increasing.",
+   level_note="Verus: gen_track_id extract (structs + fns verbatim; opaque stand-ins for the field types). Kani: record construction, apply, merge over full domains. NOT covered: one record per detection in order, distinct ids within a call, batch trackers' shared counter (predict / voting threads: worker threads, HashMap winners).",
+   technique="Verus postconditions on verbatim extracts + Kani proof harnesses (loop-free, full f32/usize domain)",
+   assumptions=K + V,
+   not_covered=["exactly one record per detection, in submission order (predict_with_scene drives store worker threads and HashMap winners)",
+                "no two detections receive the same id within one call; batch trackers' Arc<RwLock<u64>> counter under concurrency"])
+_p("C02",
+   level_text=PROOF_TEXT + "Decides the gate of C02 for all inputs: a pair is offered for continuation only at or above the IoU threshold resp. with zero weight outside the chi-square gate, never beyond bounding-circle reach.",
+   level_note="Callees too_far / calculate_metric_object / distance are recording stubs (callers checked against callee contracts). NOT covered: optimality of the assignment (SortVoting::winners: HashMap + pathfinding::kuhn_munkres) - greedy-vs-optimal mutants inside winners are not detected by this check.",
+   technique="Kani function contracts and recording-stub harnesses on SortMetric::metric / calculate_cost",
+   assumptions=K,
+   not_covered=["maximum-weight one-to-one assignment (SortVoting::winners uses HashMap/HashSet, &mut-capturing closures and an external Hungarian solver)",
+                "the IoU / Mahalanobis numbers themselves (nonlinear f32/f64 kernels are stubs with range contracts)"])
+_p("C03", probes_thorough=["sort_history"],
+   level_text=PROOF_TEXT + "Decides expiry arithmetic (Wasted exactly when last_update + max_idle < scene epoch), epoch advance by one / by n for the addressed scene, what the two shard statistics read, that set_auto_waste resets the counter, that an expired or foreign-scene pair is never compatible, and length +1 per attached detection.",
+   level_note="EpochDb / TrackerAPI via verbatim extract under a shim lock (no poisoning; guard hands out the stored value). NOT covered: conservation / handed-out-exactly-once over histories, GC-timing independence, idle_tracks listing (store worker threads); the written-back epoch map (other scenes untouched) is only covered by the bounded replay probe.",
+   technique="Verus postconditions on verbatim extracts (EpochDb, TrackerAPI) and in place (update_history); Kani recording-stub harness on compatible()",
+   assumptions=K + V,
+   not_covered=["conservation of tracks / wasted exactly once over call histories", "independence from the periodic collection", "idle_tracks listing",
+                "frame of the epoch writers (other scenes' epochs untouched): bounded probe only"])
+_p("C04",
+   level_text=PROOF_TEXT + "Decides the per-call part of scene isolation: tracks of different scenes are never compatible (for all epochs, boxes, options), an update writes exactly the candidate's scene, epoch reads/advances address exactly the given scene.",
+   level_note="NOT covered: the two-run non-interference statement (a hyperproperty over histories) and zero columns in the assignment matrix.",
+   technique="Kani recording-stub harness on compatible()/apply; Verus postconditions on EpochDb extract",
+   assumptions=K + V,
+   not_covered=["grouping/boxes/epochs equal with and without interleaved other scenes (hyperproperty over histories)"])
 _p("C07",
-   assumptions=COMMON_KANI_ASSUMPTIONS,
+   level_text=PROOF_TEXT + "Decides the cost-conversion clauses of C07 for every finite d >= 0 (same gate for direct and inverted, inverted = 100 - direct) as Kani function contracts plus a lemma over the contract; vector-filter independence is a bounded stand-in.",
+   level_note="NOT covered: equality with the textbook recurrence, SPD of the covariance, Mahalanobis distance value, stationary prediction (nalgebra f32 10x10 algebra: measured infeasible).",
+   technique="Kani function contracts (requires/ensures + proof_for_contract + stub_verified lemma)",
+   assumptions=K,
    not_covered=[
-       "equality of the filter mean with the textbook recurrence, symmetric positive-definiteness of the covariance, "
-       "Mahalanobis distance value (nalgebra f32 10x10 products / Cholesky: not decidable bit-precisely in useful time, "
-       "Verus treats f32 arithmetic as uninterpreted)",
-       "stationary prediction for the box filter (measured: CBMC no answer in 600 s at unwind 101)",
-   ])
+       "equality of the filter mean with the textbook recurrence, symmetric positive-definiteness of the covariance, Mahalanobis distance value (nalgebra f32 10x10 products / Cholesky)",
+       "stationary prediction for the box filter (measured: CBMC no answer in 600 s at unwind 101)"])
+_p("C08",
+   level_text=PROOF_TEXT + "Decides the structural clauses of C08: IoU absent exactly when the intersection is 0 or a side is missing; the oriented intersection is 0 for pre-filtered pairs and otherwise the clipper's area unchanged; the axis-aligned closed form is exactly 0 without positive overlap and never negative/NaN.",
+   level_note="intersection / too_far / clipper are recording stubs in the callers' harnesses. NOT covered: exactness for rotated boxes, rigid-motion invariance, IoU range/symmetry as numbers, soundness of the too_far pre-filter (trigonometry, geo area in f64).",
+   technique="Kani proof harnesses with recording stubs on the real functions",
+   assumptions=K,
+   not_covered=["true-area exactness for rotated boxes; invariance under rigid motion; agreement of clipper and closed form; IoU in [0,1] and symmetric as numbers; too_far never rejects overlapping boxes"])
+_p("C09", probes_quick=["store_c09"],
+   level_text=PROOF_TEXT + "Decides that a merge future reports the merge result it received (failure is reported as failure) as a Verus postcondition in place; the map behaviour of the store is covered by the bounded replay probe only.",
+   level_note="Receiver::recv is assumed to return an uninterpreted next message; protocol assumption: only MergeResult messages arrive on a merge channel. NOT covered deductively: add_track/fetch_tracks/shard_stats/merge_owned (Arc<Vec<Mutex<HashMap>>> + worker threads) - bounded probe; lookup / find_usable.",
+   technique="Verus postcondition in place on the real crate (FutureMergeResponse::get) + bounded probe",
+   assumptions=V,
+   not_covered=["store map laws over operation sequences (bounded probe only)", "lookup / find_usable / merge execution in worker threads"])
+_p("C11", probes_thorough=["store_c09", "track_c11"],
+   level_text=PROOF_TEXT + "Decides C11 for Track::add_observation and Track::merge for EVERY implementation of the user callbacks and every failing invocation: the callbacks carry no contract at all, so the proof quantifies over all fault positions.",
+   level_note="Verbatim extract of update_attributes/add_observation/merge under shim traits (TA -> Self); two iterator expressions of merge are assumed helper calls; HashMap::get_mut assumed; ChangeNotifier::send given a ghost log. NOT covered deductively: merge_owned re-adding the source (bounded probe store_c09).",
+   technique="Verus postconditions + loop invariant on verbatim extract; replay probe enumerates fault positions on the real code",
+   assumptions=V,
+   not_covered=["TrackStore::merge_owned / merge_external atomicity (worker thread): bounded probe only"])
+_p("C12",
+   level_text=PROOF_TEXT + "Decides the per-pair clauses of C12 for all option combinations: feature usable iff all three thresholds at-or-above; appearance distance only for long-enough tracks and within threshold; metric() composes (positional, appearance) truthfully; voting type recorded/merged/reported truthfully.",
+   level_note="NOT covered: vote counting, greatest weight wins, loser never gets the contested track, positional fallback among remaining tracks (BestFitVoting / VisualVoting::winners: HashMap + closures + Hungarian).",
+   technique="Kani proof harnesses with recording stubs on the real VisualMetric methods",
+   assumptions=K,
+   not_covered=["voting: counting, weights, contested tracks, fallback order (VisualVoting::winners, BestFitVoting)"])
+_p("C13", probes_thorough=["sort_history"],
+   level_text=PROOF_TEXT + "Decides the history clauses of C13 for all history lengths and track lifetimes (sliding window of the most recent min(length, h) entries in arrival order, newest last) and the record echo; feature usability thresholds via C12's obligation.",
+   level_note="SORT history in place on the real crate; VisualSORT history via verbatim extract (struct with private fields of another module is opaque to Verus in place). Gallery clauses: see evidence (extract with assumed statement wrappers if present, else not covered).",
+   technique="Verus postconditions in place and on verbatim extract; Kani harness for the record echo",
+   assumptions=K + V,
+   not_covered=[])
+_p("C16", level="other",
+   level_text="Bounded stand-ins only: one complete Kani proof per vector length (all f32 bit patterns symbolic) for lengths 0..=17 (thorough: +23,24,25,63,64,65,129,130) and cheap Euclidean clauses on one packed block; never counted as proved.",
+   level_note="NOT covered: agreement with the scalar formulas, symmetry, triangle inequality, cosine range/scale invariance (true only up to rounding; CBMC's sqrt model is not functional: symmetry queries give spurious counterexamples that do not replay). AVX2 path of the shipped build differs from the verified SSE2 path.",
+   technique="Kani proof harnesses per concrete length (bounded), full value domain",
+   assumptions=K,
+   explanation="every deciding obligation is a bounded stand-in: one complete Kani proof per vector length (all f32 bit patterns symbolic) for the stated list of lengths, and Euclidean lemmas on one packed block; the property quantifies over all lengths, which no loop-free harness covers",
+   not_covered=["agreement with scalar formulas; symmetry; triangle inequality; cosine range and scale invariance"])
 _p("C19",
-   assumptions=COMMON_KANI_ASSUMPTIONS,
+   level_text=PROOF_TEXT + "Decides box equality (reflexive, symmetric, within-EPS equal, beyond-EPS unequal in every coordinate), angle normalisation range and fixed points, and the structural part of the ltwh <-> universal conversions for all finite inputs.",
+   level_note="NOT covered: left/top/width after the round trip, area/radius formulas, polygon vertex arithmetic (sin/cos nondeterministic in CBMC; float formulas cannot be pinned without re-evaluating them).",
+   technique="Kani proof harnesses (loop-free, full f32 domain) with concrete-playback replay",
+   assumptions=K,
    not_covered=[
        "left/top/width after the ltwh->universal->ltwh round trip (holds only up to rounding; bit-precise query >420 s)",
-       "area / bounding-radius formulas and the polygon vertex arithmetic (sin/cos are nondeterministic in CBMC; "
-       "a float formula cannot be pinned without re-evaluating it, which CBMC does not share)",
-       "normalize_angle for |a| > 1e3 and its equivalence modulo a full turn as a number (true only up to rounding)",
-   ])
-_p("C13",
-   assumptions=COMMON_VERUS_ASSUMPTIONS,
-   not_covered=[])
+       "area / bounding-radius formulas and the polygon vertex arithmetic",
+       "normalize_angle for |a| > 1e3 and its equivalence modulo a full turn as a number"])
+_p("C20", level="proof",
+   level_text=PROOF_TEXT + "Decides that compatible() admits a pair exactly when scene, idle limit and validate(gap, dist_in_2r(last predicted boxes)) admit it (all inputs), that dist_in_2r is >= 0 and not NaN; the table lookup itself (smallest gap >= d, first limit wins, monotone) is a bounded stand-in for table lengths 0..=3 (thorough 4).",
+   level_note="NOT covered: tracker-level comparison of constrained and unconstrained runs (histories).",
+   technique="Kani recording-stub harness on compatible(); bounded Kani harnesses on add_constraints+validate",
+   assumptions=K,
+   not_covered=["a tracker with non-binding constraints behaves like one without (histories)"])
 
 NOT_APPLICABLE = {
     "C05": "quantifies over shard-worker thread schedules: Kani has no threads, Verus would need the code rewritten onto its permission-carrying primitives; no per-call contract expresses 'for every interleaving'",
@@ -87,14 +161,3 @@ try:
     _fill_engine_sets()
 except Exception:
     pass
-_p("C11", assumptions=COMMON_VERUS_ASSUMPTIONS, not_covered=[])
-_p("C09", assumptions=COMMON_VERUS_ASSUMPTIONS, not_covered=[])
-_p("C03", assumptions=COMMON_VERUS_ASSUMPTIONS + COMMON_KANI_ASSUMPTIONS, not_covered=[])
-_p("C01", assumptions=COMMON_VERUS_ASSUMPTIONS + COMMON_KANI_ASSUMPTIONS, not_covered=[])
-_p("C04", assumptions=COMMON_VERUS_ASSUMPTIONS + COMMON_KANI_ASSUMPTIONS, not_covered=[])
-_p("C20", assumptions=COMMON_KANI_ASSUMPTIONS, not_covered=[])
-_p("C12", assumptions=COMMON_KANI_ASSUMPTIONS, not_covered=[])
-_p("C02", assumptions=COMMON_KANI_ASSUMPTIONS, not_covered=[])
-_p("C08", assumptions=COMMON_KANI_ASSUMPTIONS, not_covered=[])
-_p("C16", level="other", assumptions=COMMON_KANI_ASSUMPTIONS, not_covered=[],
-   explanation="every deciding obligation is a bounded stand-in: one complete Kani proof per vector length (all f32 bit patterns symbolic) for the stated list of lengths, and distance-function lemmas on one or two packed blocks; the property quantifies over all lengths, which no loop-free harness covers")
